@@ -88,10 +88,11 @@ type ccase struct {
 	Kind      string `json:"kind"` // gates | hook | race
 	Stream    string `json:"stream,omitempty"`
 	Idx       int    `json:"idx"`
-	Points    []int  `json:"points,omitempty"` // progress point per connection
-	Order     []int  `json:"order,omitempty"`  // release order: indices of in-flight connections
-	Late      string `json:"late,omitempty"`   // during | after: when the late connection(s) are dialled
-	Hook      string `json:"hook,omitempty"`   // hook family: placement
+	Points    []int  `json:"points,omitempty"`     // progress point per connection
+	Order     []int  `json:"order,omitempty"`      // release order: indices of in-flight connections
+	Late      string `json:"late,omitempty"`       // during | after: when the late connection(s) are dialled
+	SlowClose bool   `json:"slow_close,omitempty"` // the proxy-side connections block inside Close() until the harness lets them
+	Hook      string `json:"hook,omitempty"`       // hook family: placement
 	Transport string `json:"transport,omitempty"`
 }
 
@@ -135,6 +136,36 @@ type world struct {
 	pl              *tunx.Listener
 	serveDone       chan struct{}
 	preCloseConnIDs []int
+	closeGate       chan struct{} // slow-close mode: conn.Close() of accepted connections waits for this
+	closeGateOnce   sync.Once
+	bySv            map[*vh.PipeConn]*cconn
+}
+
+// slowConn is an accepted connection whose Close reports its entry and then
+// waits for the harness before it really closes.
+type slowConn struct {
+	*vh.PipeConn
+	w *world
+}
+
+func (s *slowConn) Close() error {
+	s.w.mu.Lock()
+	cc := s.w.bySv[s.PipeConn]
+	s.w.mu.Unlock()
+	id := -1
+	if cc != nil {
+		id = cc.id
+		atomic.StoreInt32(&cc.closeEntered, 1)
+	}
+	s.w.ev("conn-close-enter", id, atomic.LoadInt32(&s.w.closeReturned) == 1)
+	<-s.w.closeGate
+	return s.PipeConn.Close()
+}
+
+func (w *world) openCloseGate() {
+	if w.closeGate != nil {
+		w.closeGateOnce.Do(func() { close(w.closeGate) })
+	}
 }
 
 func (w *world) ev(kind string, conn int, flag bool) int64 {
@@ -240,18 +271,19 @@ type cconn struct {
 	sv    *vh.PipeConn // proxy-side end (in-memory transport)
 	w     *world
 
-	refused  bool
-	parked   int32 // handler known to have registered (reached its progress point) before Close
-	reading  int32
-	headSeen int32
-	head     atomic.Value // *tunx.Head
-	body     int64
-	bodyBad  int32
-	complete int32
-	extra    int64
-	raw      int64
-	term     int32 // 1 EOF, 2 error
-	rerr     atomic.Value
+	refused      bool
+	closeEntered int32 // slow-close mode: the handler is inside conn.Close()
+	parked       int32 // handler known to have registered (reached its progress point) before Close
+	reading      int32
+	headSeen     int32
+	head         atomic.Value // *tunx.Head
+	body         int64
+	bodyBad      int32
+	complete     int32
+	extra        int64
+	raw          int64
+	term         int32 // 1 EOF, 2 error
+	rerr         atomic.Value
 }
 
 func (c *cconn) Term() int32 { return atomic.LoadInt32(&c.term) }
@@ -356,6 +388,11 @@ func newWorld(r *vh.Run, c ccase, budget *tunx.Budget, tcp bool) (*world, error)
 		w.lis = l
 	} else {
 		w.pl = tunx.NewListener("10.0.0.7:8080")
+		if c.SlowClose {
+			w.closeGate = make(chan struct{})
+			w.bySv = map[*vh.PipeConn]*cconn{}
+			w.pl.Wrap = func(c net.Conn) net.Conn { return &slowConn{PipeConn: c.(*vh.PipeConn), w: w} }
+		}
 		w.lis = w.pl
 	}
 	go func() {
@@ -369,7 +406,13 @@ func newWorld(r *vh.Run, c ccase, budget *tunx.Budget, tcp bool) (*world, error)
 func (w *world) dial(id, point int, late string) *cconn {
 	c := &cconn{id: id, point: point, late: late, w: w}
 	if w.pl != nil {
-		cl, sv, err := w.pl.Dial(pipeCap, nil)
+		cl, sv, err := w.pl.Dial(pipeCap, func(sv *vh.PipeConn) {
+			if w.bySv != nil {
+				w.mu.Lock()
+				w.bySv[sv] = c
+				w.mu.Unlock()
+			}
+		})
 		if err != nil {
 			c.refused = true
 			atomic.StoreInt32(&c.term, 2)
@@ -544,6 +587,7 @@ func (w *world) finalChecks(cls string) {
 
 func (w *world) teardown() {
 	verifhook.Set(nil)
+	w.openCloseGate()
 	w.mu.Lock()
 	for _, g := range w.gates {
 		select {
@@ -731,11 +775,34 @@ func runGates(r *vh.Run, c ccase, budget *tunx.Budget) {
 		}
 		w.release(cc)
 		if !w.await("C07:response-incomplete:"+ptName[cc.point], fmt.Sprintf("exchange parked at %q was released during shutdown but its client has not received the complete response and end-of-stream at quiescence", ptName[cc.point]),
-			func() bool { return cc.Term() != 0 }) {
+			func() bool {
+				if c.SlowClose { // end-of-stream cannot come before the harness lets the connection close
+					return cc.Term() != 0 || (atomic.LoadInt32(&cc.complete) == 1 && atomic.LoadInt32(&cc.closeEntered) == 1)
+				}
+				return cc.Term() != 0
+			}) {
 			return
 		}
 		w.checkExchange(cc, ptName[cc.point])
 		_ = k
+	}
+
+	if c.SlowClose {
+		// every handler is now inside conn.Close(), which the harness holds:
+		// the connections are NOT closed yet, so Close must not return.
+		for _, cc := range conns {
+			cc := cc
+			if !w.await("C07:connection-not-closed:"+ptName[cc.point], fmt.Sprintf("shutdown in progress, exchange finished, but the handler of connection %d (%s) has not started to close its connection at quiescence", cc.id, ptName[cc.point]),
+				func() bool { return atomic.LoadInt32(&cc.closeEntered) == 1 }) {
+				return
+			}
+		}
+		vh.Settle(w.activity, 3, 100*time.Millisecond, 5*time.Second)
+		if w.returned() {
+			r.ViolationCase(c, "C07:close-waits:connection-open-at-return", "Close returned while the handlers of accepted connections were still inside conn.Close(): the connections had not been closed", w.state())
+		}
+		r.Count("slow_close_cases_held_open", 1)
+		w.openCloseGate()
 	}
 
 	// Close must now return
@@ -779,7 +846,11 @@ func runGates(r *vh.Run, c ccase, budget *tunx.Budget) {
 	for _, o := range c.Order {
 		os = append(os, strconv.Itoa(o))
 	}
-	r.Class("gates:" + strings.Join(ps, ",") + ":order=" + strings.Join(os, "") + ":late=" + c.Late)
+	sc := ""
+	if c.SlowClose {
+		sc = ":slow-conn-close"
+	}
+	r.Class("gates:" + strings.Join(ps, ",") + ":order=" + strings.Join(os, "") + ":late=" + c.Late + sc)
 	r.Count("events_observed", atomic.LoadInt64(&w.seq))
 	if c.Idx%97 == 5 {
 		st := w.state()
@@ -831,6 +902,15 @@ func allGateCases(thorough bool) []ccase {
 	cs := append(gateCases(1), gateCases(2)...)
 	if thorough {
 		cs = append(cs, gateCases(3)...)
+	}
+	// slow-close variants: every tuple for 1-2 connections, every 8th for 3
+	n := len(cs)
+	for i := 0; i < n; i++ {
+		if len(cs[i].Points) <= 2 || i%8 == 0 {
+			v := cs[i]
+			v.SlowClose = true
+			cs = append(cs, v)
+		}
 	}
 	for i := range cs {
 		cs[i].Idx = i
